@@ -66,6 +66,8 @@ def check(ctx) -> None:
     ctx.rule("C18.namespace-agree", "the statement re-execution namespace and the rendered import bind the same SUT names (one shared helper)", floor=2)
     ctx.rule("C18.public-names", "ABSINT: _public_sut_names lists every public attribute of the module (imported names included) except the module alias, sorted", floor=1)
     _public_names(ctx, repo)
+    ctx.rule("C18.enum-import", "ABSINT + def-use: the writer has a collector that, interpreted over asserted values (enum members bare and nested in list / tuple / set / dict keys and values), yields every enum class the rendering names; write applies it to the asserted value of every assertion and what it yields feeds the emitted from-imports", floor=8)
+    _enum_imports(ctx, repo)
     ctx.rule("C18.accumulate", "the exception types collected for the import lines are accumulated over all test cases (the accumulator is only updated inside the per-test loop, never rebound)", floor=1)
     _accumulate(ctx, repo)
     ctx.rule("C18.non-holding", "assertions that failed AND assertions that raised when replayed are both removed, each guarded only by its own membership test", floor=3)
@@ -317,6 +319,90 @@ def _public_names(ctx, repo) -> None:
         ctx.undecide("C18.public-names", fn, str(exc))
         return
     ctx.check("C18.public-names", fn, list(got) == want, f"_public_sut_names yields {list(got)}, the public names of the module are {want}: a name that the rendered code uses by its bare name (an enum class the module imported, e.g. `HTTPStatus.OK`) is not imported by the written file (NameError under pytest)", what=f"public names = {want}", stmt="[public names]")
+
+
+def _enum_imports(ctx, repo) -> None:
+    """Enum members are rendered as `ClassName.MEMBER`; the class name must be bound in the file."""
+    import enum as _enum
+
+    from sa.engine import peval
+
+    EX = "pynguin.testcase.export"
+    A2A = "pynguin.assertion.assertion_to_ast"
+    v2c = repo.func(A2A, "_value_to_cst")
+    bare = [n for n in own_nodes(v2c) if isinstance(n, ast.Call) and norm(n.func) == "cst.Name" and n.args and isinstance(n.args[0], ast.Name)]
+    uses_class_name = any("__name__" in norm(st) and "type(" in norm(st) for st in own_nodes(v2c) if isinstance(st, ast.Assign))
+    if not (bare and uses_class_name):
+        ctx.ok("C18.enum-import", v2c, "_value_to_cst no longer renders a bare class name: nothing to import")
+        return
+    ctx.analysed(v2c)
+
+    class Shade(_enum.Enum):
+        DARK = 1
+
+    class Level(_enum.IntEnum):
+        LOW = 1
+
+    values = [("a member", Shade.DARK, {Shade}), ("an IntEnum member", Level.LOW, {Level}), ("a list", [1, Shade.DARK], {Shade}), ("a nested tuple", (("x", (Level.LOW,)),), {Level}), ("a set", {Shade.DARK}, {Shade}),
+              ("a dict value", {"k": Shade.DARK}, {Shade}), ("a dict key", {Level.LOW: 1}, {Level}), ("two classes", [Shade.DARK, {Level.LOW: Shade.DARK}], {Shade, Level}), ("no enum", [1, "a", None], set())]
+    mod = repo.module(EX)
+    collectors = []
+    for qn, fn in mod.functions.items():
+        if "." in qn or len(fn.args.args) != 1 or fn.args.kwonlyargs or fn.args.vararg:
+            continue
+        try:
+            got = peval.Interp(resolver=peval.repo_resolver(repo), max_steps=20000).run_function(fn, [Shade.DARK], {}, mod)
+            if not isinstance(got, (str, bytes)) and Shade in set(got):
+                collectors.append((qn, fn))
+        except Exception:  # noqa: BLE001 - not a collector
+            continue
+    write = repo.func(EX, "TestSuiteWriter.write")
+    if not collectors:
+        ctx.fail("C18.enum-import", write, "_value_to_cst renders an enum member as the bare `ClassName.MEMBER`, but no function of the writer maps an asserted value to its enum classes: the class is imported only when it happens to be a public name of the module under test - an assertion on a member of `class _Mode(enum.Enum)` fails with NameError in the exported file", stmt="[collector]")
+        return
+    qn, fn = collectors[0]
+    ctx.analysed(fn)
+    for label, value, want in values:
+        try:
+            got = set(peval.Interp(resolver=peval.repo_resolver(repo), max_steps=50000).run_function(fn, [value], {}, mod))
+        except (peval.Undecided, peval.Raises) as exc:
+            ctx.undecide("C18.enum-import", fn, f"{label}: {exc}")
+            continue
+        ctx.check("C18.enum-import", fn, got == want, f"{qn}({label}) yields {sorted(c.__name__ for c in got)}, the rendering names {sorted(c.__name__ for c in want)}: a class that is named but not collected is not imported (NameError in the exported test)", what=f"{qn}: {label}", stmt=f"[collect] {label}")
+    # def-use in write: collector applied to the asserted value of the assertions, result reaches the from-imports
+    calls = [c for c in own_nodes(write) if isinstance(c, ast.Call) and last_attr(c) == qn]
+    on_value = [c for c in calls if any(isinstance(x, (ast.Attribute, ast.Constant)) and (getattr(x, "attr", None) == "object" or getattr(x, "value", None) == "object") for a in c.args for x in ast.walk(a))]
+    ctx.check("C18.enum-import", calls[0] if calls else write, bool(on_value), f"TestSuiteWriter.write does not apply {qn} to the asserted value (`.object`) of the assertions", what=f"{qn} applied to assertion.object", stmt="[applied]")
+    if not on_value:
+        return
+    in_loops = [lp for lp in ast.walk(write) if isinstance(lp, ast.For) and any(c is on_value[0] for c in ast.walk(lp))]
+    over_all = any("assertions" in norm(lp.iter) for lp in in_loops) and any("statements()" in norm(lp.iter) for lp in in_loops) and any("test_case_chromosomes" in norm(lp.iter) for lp in in_loops)
+    conds = [norm(t) for t, _pol in _enclosing_conditions(_stmt(on_value[0]), write)]
+    ctx.check("C18.enum-import", on_value[0], over_all and not conds, f"the enum classes are not collected for every assertion of every statement of every test case (loops: {[norm(lp.iter)[:40] for lp in in_loops]}, conditions: {conds})", what="collected for every assertion of every statement of every test case", stmt="[every assertion]")
+    # the accumulator the call feeds
+    st = _stmt(on_value[0])
+    acc = norm(st.value.func.value) if isinstance(st, ast.Expr) and isinstance(st.value, ast.Call) and isinstance(st.value.func, ast.Attribute) and st.value.func.attr in ("update", "extend", "append", "add") else norm(st.target) if isinstance(st, ast.AugAssign) else None
+    feeds = [lp for lp in own_nodes(write) if isinstance(lp, ast.For) and acc is not None and norm(lp.iter) == acc]
+    stores = [n for lp in feeds for n in ast.walk(lp) if isinstance(n, ast.Call) and last_attr(n) in ("append", "add") and "__name__" in norm(n) and "__module__" in norm(n)]
+    emits = [n for n in own_nodes(write) if isinstance(n, ast.Call) and last_attr(n) == "append" and "from {" in norm(n)]
+    same_table = bool(stores) and bool(emits) and any(norm(stores[0].func).split(".")[0].split("[")[0] in norm(_enclosing_for_iter(e, write)) for e in emits)
+    ctx.check("C18.enum-import", feeds[0] if feeds else write, bool(stores) and same_table, f"what {qn} yields (`{acc}`) does not reach the emitted `from <module> import <names>` statements", what=f"`{acc}` feeds the from-imports", stmt="[feeds imports]")
+    if stores:
+        # the only classes that may be left out: not importable under their name, or already bound by the public-name import
+        conds = _enclosing_conditions(_stmt(stores[0]), feeds[0])
+        txt = " and ".join(norm(t) for t, pol in conds if pol)
+        neg = [norm(t) for t, pol in conds if not pol]
+        ok = "startswith" not in txt and not any("startswith" in n for n in neg)
+        ctx.check("C18.enum-import", stores[0], ok, f"an enum class is left without an import depending on the spelling of its name (`{txt}` / not `{neg}`): a private enum class of the module under test is exactly the one the public-name import does not bind", what="no exclusion by name prefix", stmt="[exclusion]")
+
+
+def _enclosing_for_iter(node, root) -> ast.AST:
+    p = parent(node)
+    while p is not None and p is not root:
+        if isinstance(p, ast.For):
+            return p.iter
+        p = parent(p)
+    return ast.Constant(value=None)
 
 
 def _accumulate(ctx, repo) -> None:
